@@ -6,6 +6,7 @@
 #include "../engine/src.h"
 #include "../genlib/parsed.h"
 #include "../genlib/builder.h"
+#include <tins/pdu_cacher.h>
 
 using namespace verif;
 using namespace Tins;
@@ -76,6 +77,50 @@ static void check_serialize(PDU& pdu, Ctx& ctx, const std::string& origin) {
     }
 }
 
+// PDUCacher<X> around a copy of the packet (X = the root's class): the wrapper promises the wrapped packet's serialisation
+static PDU* make_cacher(const PDU& pdu) {
+#define X(C) if (typeid(pdu) == typeid(Tins::C)) return new PDUCacher<Tins::C>(static_cast<const Tins::C&>(pdu));
+    VERIF_ENTRY_CLASSES(X)
+#undef X
+    return nullptr;
+}
+
+static void check_cacher(PDU& pdu, Ctx& ctx, unsigned how, const std::string& origin) {
+    std::unique_ptr<PDU> c(make_cacher(pdu));
+    if (!c) return;
+    ctx.label("pdu-cacher");
+    std::string root = short_cls(demangled(typeid(pdu)));
+    PDU::serialization_type want;
+    try { std::unique_ptr<PDU> cp(pdu.clone()); want = cp->serialize(); } catch (const std::exception&) { return; }
+    PDU* top = c.get();
+    std::unique_ptr<PDU> holder;
+    size_t skip = 0;
+    std::vector<uint8_t> tail;
+    if (how == 1) {          // a payload attached below the wrapper itself
+        static const uint8_t T[5] = {0xde, 0xad, 0xbe, 0xef, 0x99};
+        tail.assign(T, T + 5);
+        c->inner_pdu(new RawPDU(tail.begin(), tail.end()));
+    } else if (how == 2 && pdu.pdu_type() == PDU::PPPOE) {
+        // known consequence of the open finding C13:pducacher-masquerade: the wrapper reports PDU::PPPOE, so link layers
+        // downcast it to PPPoE to pick the session/discovery ether type (EthernetII always did; SNAP/Dot1Q/SLL since 522d42b)
+        ctx.excluded("pdu-cacher<PPPoE>-below-a-link-layer (C13 open finding: flag-based downcast of the wrapper)");
+    } else if (how == 2) {   // the wrapper below a parent
+        holder.reset(new SNAP());
+        skip = holder->header_size();
+        holder->inner_pdu(c.release());
+        top = holder.get();
+    }
+    check_serialize(*top, ctx, "PDUCacher<" + root + "> of " + origin);
+    PDU::serialization_type got = top->serialize();
+    bool same = got.size() == skip + want.size() + tail.size() && std::equal(want.begin(), want.end(), got.begin() + skip) &&
+                std::equal(tail.begin(), tail.end(), got.begin() + skip + want.size());
+    VCHECK(ctx, same, "C02:pdu-cacher-bytes-differ:" + root, "PDUCacher<" << root << "> serialises to " << hex(got, 256) << " wrapped packet to " << hex(want, 256) << " | " << origin);
+    // a clone of the wrapper is as good as the wrapper
+    std::unique_ptr<PDU> cl(top->clone());
+    PDU::serialization_type got2 = cl->serialize();
+    VCHECK(ctx, got2 == got, "C02:pdu-cacher-clone-differs:" + root, "clone of PDUCacher<" << root << "> serialises differently | " << origin);
+}
+
 void prop(Src& s, Ctx& ctx) {
     unsigned domain = s.u8();
     if (domain & 1) {
@@ -134,6 +179,7 @@ void prop(Src& s, Ctx& ctx) {
             origin = "program: " + b.text();
             check_serialize(pdu, ctx, origin);
         }
+        if ((domain & 0x0e) == 0x0e) check_cacher(pdu, ctx, (domain >> 4) % 3, origin);
         PacketView pv = view_packet(pdu);
         unsigned nopt = count_options(pv);
         ctx.hash("built"); ctx.hash(layer_chain(pdu)); ctx.hash(hash_str(b.text()));
